@@ -94,6 +94,7 @@ func (s *Set[T]) forceSetupOrdered() {
 	s.list = &List[T]{}
 	for item := range s.hash {
 		s.list.PushBack(item)
+		s.hash[item] = s.list.Back()
 	}
 }
 
